@@ -37,6 +37,10 @@ type Modules struct {
 	// converted nodes. To access the map, use the get/set/ClearEntryCache()
 	// thread-safe functions.
 	entryCache map[Node]*Entry
+	// entryInProgress holds the nodes ToEntry is currently converting, so
+	// that a grouping that (directly or indirectly) uses itself is detected
+	// instead of recursing forever. Protected by entryCacheMu.
+	entryInProgress map[Node]bool
 	// mergedSubmodule is used to prevent re-parsing a submodule that has already
 	// been merged into a particular entity when circular dependencies are being
 	// ignored. The keys of the map are a string that is formed by concatenating
@@ -464,6 +468,28 @@ func (ms *Modules) setEntryCache(n Node, e *Entry) {
 	ms.entryCacheMu.Lock()
 	defer ms.entryCacheMu.Unlock()
 	ms.entryCache[n] = e
+}
+
+// enterEntry records that the conversion of n has begun. It returns false if
+// n is already being converted, i.e. n was reached again from within itself.
+func (ms *Modules) enterEntry(n Node) bool {
+	ms.entryCacheMu.Lock()
+	defer ms.entryCacheMu.Unlock()
+	if ms.entryInProgress[n] {
+		return false
+	}
+	if ms.entryInProgress == nil {
+		ms.entryInProgress = map[Node]bool{}
+	}
+	ms.entryInProgress[n] = true
+	return true
+}
+
+// leaveEntry records that the conversion of n has ended.
+func (ms *Modules) leaveEntry(n Node) {
+	ms.entryCacheMu.Lock()
+	defer ms.entryCacheMu.Unlock()
+	delete(ms.entryInProgress, n)
 }
 
 // ClearEntryCache clears the entryCache containing previously converted nodes
